@@ -482,6 +482,13 @@ func (e *Engine) step(s *State) []*State {
 		f.env[x] = SliceV{r, intT(0), n, c, et}
 	case *ssa.MakeMap:
 		mt := x.Type().Underlying().(*types.Map)
+		if x.Reserve != nil && e.curT != nil && s.spec == 0 {
+			if mb := argVal(e.curT.D, "makebound"); mb != "" { // the size hint of make(map, n) is allocated up front
+				var lim int64
+				fmt.Sscanf(mb, "%d", &lim)
+				e.oblig(s, "safe.makebound", ile(e.toInt(s, e.get(s, f, x.Reserve).(Term), x.Reserve.Type()), intT(lim)))
+			}
+		}
 		m := MapV{Ref: e.newRef(s), K: mt.Key(), V: mt.Elem()}
 		ks, _ := sortOf(m.K)
 		nm := "MP_" + mapTag(m) + "$p"
@@ -556,6 +563,13 @@ func (e *Engine) step(s *State) []*State {
 		if pv, ok := iv.V.(PtrV); ok {
 			if !pv.Nil && pv.Kind == "struct" {
 				e.boxedByRef[pv.Ref.S] = iv
+				if _, isPtr := x.X.Type().Underlying().(*types.Pointer); isPtr && len(pv.Path) == 0 && s.spec == 0 {
+					// the object's type tag: the same object read back from the heap through an interface of unknown
+					// origin (a map value, a field) asserts to this pointer type and to no other
+					s.defs = append(s.defs, "(declare-fun typeof (Ref) Int)")
+					id := e.typeID(x.X.Type())
+					e.assume(s, or(eq(pv.Ref, refT(0)), eq(app("typeof", "Int", pv.Ref), Term{S: fmt.Sprint(id), Sort: "Int", C: big.NewInt(int64(id))})))
+				}
 			}
 		} else if s.spec == 0 {
 			iv.Box = e.newRef(s) // a boxed non-reference value gets an identity of its own
@@ -892,6 +906,29 @@ func (e *Engine) enter(s *State, f *Frame, from, to *ssa.BasicBlock) {
 				e.rebound = map[string]bool{}
 			}
 			e.rebound[fmt.Sprintf("%s: the loop annotation registered for another ordinal was bound to loop %d (the function's loop structure changed)", shortName(f.fn.String()), ord)] = true
+			ann = alt
+		}
+	}
+	// A loop of the target that was moved, as it is, into a helper of the same package (which is then executed inline):
+	// the helper has no annotation of its own, the target has one for a loop it no longer contains, and every local
+	// that annotation names exists - with the same type - at this loop. Exactly one such annotation: it is used here.
+	if ann == nil && e.curT != nil && f.fn != e.curT.Fn && f.fn.Pkg == e.curT.Fn.Pkg && e.loops[f.fn.String()] == nil {
+		var alt *LoopAnn
+		nOwn := len(headersOf(e.curT.Fn))
+		for o2, a2 := range e.loops[e.curT.Fn.String()] {
+			if o2 >= nOwn && len(a2.Invs) > 0 && e.annBinds(f, a2) {
+				if alt != nil {
+					alt = nil
+					break
+				}
+				alt = a2
+			}
+		}
+		if alt != nil {
+			if e.rebound == nil {
+				e.rebound = map[string]bool{}
+			}
+			e.rebound[fmt.Sprintf("%s: a loop annotation of %s was bound to loop %d of this helper (the loop was moved out of the function under contract)", shortName(f.fn.String()), shortName(e.curT.Fn.String()), ord)] = true
 			ann = alt
 		}
 	}
@@ -1534,6 +1571,9 @@ func (e *Engine) callFn(s *State, f *Frame, fn *ssa.Function, args []Val, bind [
 		lo, hi, cl := s.res(args[0].(Term)), s.res(args[1].(Term)), args[2].(FuncV)
 		f.env[x] = e.quant(s, name == "vsForall", lo, hi, cl)
 		return true
+	case atomicMethod(fn) != nil:
+		e.atomicCall(s, f, x, fn, atomicMethod(fn), args)
+		return true
 	case (strings.HasPrefix(fn.String(), "sync.") || strings.HasPrefix(fn.String(), "(*sync.")) && fn.Signature.Results().Len() == 0:
 		return true // Lock/Unlock/Put/Done/...: no effect on the sequential semantics
 	}
@@ -1955,7 +1995,7 @@ func (e *Engine) havocPtr(s *State, p PtrV) {
 func (e *Engine) havocStructSafe(s *State, p PtrV) {
 	for i := 0; i < p.StT.NumFields(); i++ {
 		nm, ft := e.fieldHeapName(p, i)
-		if isSyncType(ft) {
+		if isSyncType(ft) && atomicValT(ft) == nil {
 			continue
 		}
 		func() {
@@ -1981,10 +2021,16 @@ func (e *Engine) annBinds(f *Frame, ann *LoopAnn) bool {
 			if strings.HasPrefix(pn, "old_") || (strings.HasPrefix(pn, "head") && strings.Contains(pn, "_")) {
 				continue
 			}
-			if _, ok := f.entry["$cell:"+pn]; ok {
+			if c, ok := f.entry["$cell:"+pn]; ok {
+				if cc, isC := c.(*Cell); isC && cc.T != nil && !sameShape(cc.T, p.Type()) {
+					return false
+				}
 				continue
 			}
-			if _, ok := f.entry["$ptr:"+pn]; ok {
+			if c, ok := f.entry["$ptr:"+pn]; ok {
+				if cp, isP := c.(PtrV); isP && cp.Kind == "hcell" && cp.Elem != nil && !sameShape(cp.Elem, p.Type()) {
+					return false
+				}
 				continue
 			}
 			if _, ok := e.rangeAlias(nil, f, pn, p.Type()); ok {
@@ -2120,4 +2166,9 @@ func notPure(fn *ssa.Function, where int) bool {
 		fmt.Fprintf(os.Stderr, "not pure %s: rule %d\n", fn, where)
 	}
 	return false
+}
+
+// sameShape: a local of type a can be what a spec parameter of type b names.
+func sameShape(a, b types.Type) bool {
+	return types.Identical(a, b) || types.Identical(a.Underlying(), b.Underlying())
 }
